@@ -12,7 +12,7 @@ TECHNIQUE = "reference-model monitors on the real functions: enumerated Noll ord
 LEVEL_TEXT = ("zernIndex is compared with Noll's rule enumerated from the definition for every j up to 2*10^5 (exhaustive to that bound) and at "
               "2^k, 2^k +- 1, triangular numbers +- 1 up to 10^12 using integer arithmetic; generated modes are compared pixel by pixel with an "
               "independent evaluation (Jacobi polynomials, cross-checked against exact rational coefficients) for every grid size 8..65 and "
-              "128/256, odd and even, to radial order 20; Gram matrices, rms / p2v normalisations, list-vs-count (with rotation), linear "
+              "128/256, odd and even, to radial order 20-26; Gram matrices, rms / p2v normalisations, list-vs-count (with rotation), linear "
               "combination, and the gamma matrices against 4th-order finite differences of the generated modes and the analytic gradient. "
               "Exploration beyond the enumerated index range.")
 LEVEL_NOTE = "Trusted: scipy.special.eval_jacobi (cross-checked in-run against exact rational radial polynomials), NumPy. The meaning of `rot` is not judged, only its consistent use."
@@ -324,7 +324,8 @@ def run(ctx, spec):
     sizes = [N for N in list(range(8, 66)) + [128, 256] if N % spec["n_shards"] == spec["shard"]]
     for rep in range(spec["reps"]):
         for N in sizes:
-            jcount = (231 if spec["shard"] % 8 else 300) if (N >= 64 and spec["shard"] % 4 == 0 and rep == 0) else int(rng.integers(6, 67))
+            # radial orders up to 20 (231 modes), 23 (300) and 26 (378 modes) on the large grids
+            jcount = {64: 300, 128: 378, 256: 231}.get(N, 231) if (N >= 64 and spec["shard"] % 4 == 0 and rep == 0) else int(rng.integers(6, 67))
             check_modes(ctx, Z, aotools, N, rng, jcount)
             check_list_and_combination(ctx, Z, N, rng)
             if N >= 48:
